@@ -3,12 +3,17 @@
 // Obligations: C01.3, C03.2, C03.3, C15.1, C15.2
 use vstd::prelude::*;
 use vstd::std_specs::cmp::*;
+use vstd::std_specs::iter::*;
 verus! {
 
 //@ INCLUDE prelude/key.rs
+//@ INCLUDE prelude/seqiter.rs
+impl Key { #[verifier::external_body] pub fn empty() -> (r: Key) { unimplemented!() } }
 
 //@ SUBST `& [ u8 ]` ==> `KeyRef`
 //@ SUBST `Slice :: empty ( )` ==> `Key::empty()`
+//@ SUBST `Slice :: from` ==> `Key::from`
+//@ SUBST `Slice` ==> `Key`
 
 // ------------------------------------------------------------------ src/key_range.rs
 //@ FROM src/key_range.rs :: - :: struct KeyRange
@@ -20,6 +25,12 @@ impl KeyRange {
     spec fn hi(&self) -> int { self.1.rank() }
     spec fn has(&self, k: int) -> bool { self.lo() <= k <= self.hi() }
     spec fn wf(&self) -> bool { self.lo() <= self.hi() }
+
+//@ FROM src/key_range.rs :: impl KeyRange :: fn empty
+    fn empty() -> Self {
+        Self(Key::empty(), Key::empty())
+    }
+//@ END
 
 //@ FROM src/key_range.rs :: impl KeyRange :: fn min :: OBL C03.2
     fn min(&self) -> /*+*/(r: /*-*/&UserKey/*+*/) ensures r == &self.0/*-*/ {
@@ -120,6 +131,49 @@ impl KeyRange {
         lo_included && hi_included
     }
 //@ END
+
+//@ FROM src/key_range.rs :: impl KeyRange :: fn aggregate :: OBL C07.6
+//@ SUBST `impl Iterator < Item = & 'a Self >` ==> `SeqIter<&'a KeyRange>`
+    fn aggregate<'a>(mut iter: SeqIter<&'a KeyRange>) -> /*+*/(r: /*-*/Self/*+*/)
+        ensures
+            // C07.6: min of mins, max of maxes
+            iter.rest().len() > 0 ==> (forall|i: int| 0 <= i < iter.rest().len() ==> r.lo() <= (#[trigger] iter.rest()[i]).lo() && iter.rest()[i].hi() <= r.hi())
+                && (exists|i: int| 0 <= i < iter.rest().len() && r.lo() == (#[trigger] iter.rest()[i]).lo())
+                && (exists|i: int| 0 <= i < iter.rest().len() && r.hi() == (#[trigger] iter.rest()[i]).hi())/*-*/
+    {
+        /*+*/let ghost s0 = iter.rest();/*-*/
+        let Some(first) = iter.next() else {
+            return Self::empty();
+        };
+
+        let mut min = first.min();
+        let mut max = first.max();
+        /*+*/let ghost mut imin: int = 0; let ghost mut imax: int = 0;/*-*/
+
+        for other in /*+*/it: /*-*/iter
+            /*+*/invariant
+                s0.len() > 0, it.seq() == s0.skip(1),
+                0 <= imin < s0.len() && min.rank() == s0[imin].lo(), 0 <= imax < s0.len() && max.rank() == s0[imax].hi(),
+                forall|i: int| 0 <= i < it.index@ + 1 ==> min.rank() <= (#[trigger] s0[i]).lo() && s0[i].hi() <= max.rank(),/*-*/
+        {
+            /*+*/proof { assert(*other == s0.skip(1)[it.index@]); assert(s0.skip(1)[it.index@] == s0[it.index@ + 1]); }/*-*/
+            let x = other.min();
+            if x < min {
+                min = x;
+                /*+*/proof { imin = it.index@ + 1; }/*-*/
+            }
+
+            let x = other.max();
+            if x > max {
+                max = x;
+                /*+*/proof { imax = it.index@ + 1; }/*-*/
+            }
+        }
+
+        Self(min.clone(), max.clone())
+    }
+//@ END
+
 }
 
 // ------------------------------------------------------------------ src/version/run.rs
@@ -240,6 +294,78 @@ impl<T: Ranged> Run<T> {
     }
 //@ END
 }
+
+// ------------------------------------------------------------------ src/compaction/drop_range.rs, src/tree/mod.rs
+use Bound::{Excluded, Included, Unbounded};
+
+//@ FROM src/compaction/drop_range.rs :: - :: struct OwnedBounds
+struct OwnedBounds {
+    start: Bound<Key>,
+    end: Bound<Key>,
+}
+//@ END
+
+impl OwnedBounds {
+    spec fn has(&self, k: int) -> bool { above(self.start, k) && below(self.end, k) }
+
+//@ FROM src/compaction/drop_range.rs :: impl OwnedBounds :: fn contains :: OBL C15.1
+    fn contains(&self, range: &KeyRange) -> /*+*/(r: /*-*/bool/*+*/)
+        requires range.wf(),
+        ensures r ==> forall|k: int| range.has(k) ==> self.has(k),      // C15.1: a table is dropped only if every key it may hold is in R
+                r == (self.has(range.lo()) && self.has(range.hi()))/*-*/
+    {
+        let lower_ok = match &self.start {
+            Bound::Unbounded => true,
+            Bound::Included(key) => key.as_ref() <= range.min().as_ref(),
+            Bound::Excluded(key) => key.as_ref() < range.min().as_ref(),
+        };
+
+        if !lower_ok {
+            return false;
+        }
+
+        match &self.end {
+            Bound::Unbounded => true,
+            Bound::Included(key) => key.as_ref() >= range.max().as_ref(),
+            Bound::Excluded(key) => key.as_ref() > range.max().as_ref(),
+        }
+    }
+//@ END
+}
+
+//@ FROM src/tree/mod.rs :: impl Tree :: fn range_bounds_to_owned_bounds :: OBL C15.2
+//@ SUBST `< K : AsRef < [ u8 ] > , R : RangeBounds < K > >` ==> ``
+//@ SUBST `& R` ==> `&RangeB`
+//@ SUBST `use Bound :: { Excluded , Included , Unbounded } ;` ==> ``
+fn range_bounds_to_owned_bounds(
+    range: &RangeB,
+) -> /*+*/(r: /*-*/(OwnedBounds, bool)/*+*/)
+    ensures
+        // C15.2: the owned bounds admit exactly the keys the caller's range admits
+        forall|k: int| r.0.has(k) == #[trigger] range.has(k)/*-*/
+{
+    let start = match range.start_bound() {
+        Included(key) => Included(Key::from(key.as_ref())),
+        Excluded(key) => Excluded(Key::from(key.as_ref())),
+        Unbounded => Unbounded,
+    };
+
+    let end = match range.end_bound() {
+        Included(key) => Included(Key::from(key.as_ref())),
+        Excluded(key) => Excluded(Key::from(key.as_ref())),
+        Unbounded => Unbounded,
+    };
+
+    let is_empty =
+        if let (Included(lo) | Excluded(lo), Included(hi) | Excluded(hi)) = (&start, &end) {
+            lo.as_ref() > hi.as_ref()
+        } else {
+            false
+        };
+
+    (OwnedBounds { start, end }, is_empty)
+}
+//@ END
 
 } // verus!
 fn main() {}
